@@ -103,13 +103,46 @@ Theorem c06_restricted_underlying_changes_only_by_listed_write : forall g c perm
 Proof. exact restricted_underlying_changes_only_by_listed_write. Qed.
 Print Assumptions c06_restricted_underlying_changes_only_by_listed_write.
 
-(* 4. Every request handler of the generated table reaches attributes only through _access_attr, with the hook, the
-      permission and the builtin of the same kind, and with the permission the property names for it. *)
-Theorem c06_all_routes_checked : forall h rs, In (h, rs) Gen_attrpolicy.handlers ->
+(* 3'. A Service instance (the root object a peer always holds) defines _rpyc_setattr/_rpyc_delattr that only raise
+       AttributeError: whatever the configuration -- blanket classic permissions included -- writing or deleting an attribute
+       of the service itself is refused without effect; reading follows the configuration (no read hook).  The two booleans
+       are the generated facts about class Service's hook bodies (true on the current tree, tie below). *)
+Theorem c06_service_root_denies_writes : forall g c p l, is_text p ->
+  Gen_attrpolicy.service_denies_set = true /\ Gen_attrpolicy.service_denies_del = true /\
+  handle_service Gen_attrpolicy.service_denies_set Gen_attrpolicy.service_denies_del g c PSet p l = (Raise AttributeError, [], svc_obj l) /\
+  handle_service Gen_attrpolicy.service_denies_set Gen_attrpolicy.service_denies_del g c PDel p l = (Raise AttributeError, [], svc_obj l) /\
+  handle_service Gen_attrpolicy.service_denies_set Gen_attrpolicy.service_denies_del g c PGet p l =
+    (o_result (handle g c PGet p (svc_obj l)), o_trace (handle g c PGet p (svc_obj l)), o_obj (handle g c PGet p (svc_obj l))) /\
+  decide_gen c PSet p (svc_obj l) = Ok (ViaHook (text_of p)) /\ decide_gen c PDel p (svc_obj l) = Ok (ViaHook (text_of p)).
+Proof.
+  intros g c p l T. destruct tie_service_hooks as (_ & -> & -> & _). destruct (service_root g c p l T) as (A & B & C & _).
+  repeat split; auto; rewrite decide_gen_eq; now apply hook_overrides.
+Qed.
+Print Assumptions c06_service_root_denies_writes.
+
+(* 4. FULL STATEMENT wanted: "every way a peer can get at an attribute of an object follows the policy".
+      PROVED (partial): every request handler that takes an attribute NAME from the peer or uses a fixed one -- exactly
+      cmp, getattr, delattr, setattr, callattr, ctxexit, oldslicing -- reaches attributes only through _access_attr, with the
+      hook, the permission and the builtin of the same kind, and with the permission the property names for it.
+      EXCLUDED, stated by c06_route_exclusions below: the thirteen handlers that take no attribute name.  They are not
+      governed by the seven attribute switches: dir returns the names dir(obj) lists; inspect returns names and docstrings of
+      the callables found in the class dicts of type(obj); pickle returns the whole state and is gated by allow_pickle alone;
+      repr/str/hash/call/buffiter/instancecheck run special methods of the object; ping/close/getroot/del touch no attribute.
+      "No other getattr-like call with a peer-chosen name" rests on the translator's syntactic scan of the handler bodies
+      (trusted); the bodies of the excluded handlers and lib.get_methods are shape-snapshotted. *)
+Theorem c06_all_routes_checked_partial : forall h rs, In (h, rs) Gen_attrpolicy.handlers ->
   handler_perms Gen_attrpolicy.handlers h = expected_perms h /\
   Forall (fun x => x <> None) (handler_perms Gen_attrpolicy.handlers h).
 Proof. exact (routes_checked Gen_attrpolicy.handlers tie_routes_ok). Qed.
-Print Assumptions c06_all_routes_checked.
+Print Assumptions c06_all_routes_checked_partial.
+
+Theorem c06_route_exclusions :
+  handlers_with_routes Gen_attrpolicy.handlers = ["cmp"; "getattr"; "delattr"; "setattr"; "callattr"; "ctxexit"; "oldslicing"]%string /\
+  handlers_without_routes Gen_attrpolicy.handlers =
+    ["ping"; "close"; "getroot"; "del"; "repr"; "str"; "hash"; "call"; "dir"; "inspect"; "instancecheck"; "pickle"; "buffiter"]%string /\
+  Gen_attrpolicy.pickle_gate = "allow_pickle"%string /\ Gen_attrpolicy.pickle_refusal = "ValueError"%string.
+Proof. destruct tie_handler_partition as [A B]. destruct tie_pickle_gate as [C D]. repeat split; assumption. Qed.
+Print Assumptions c06_route_exclusions.
 
 Theorem c06_route_is_consistent_triple : forall r p, route_perm r = Some p ->
   r = match p with
@@ -122,11 +155,15 @@ Print Assumptions c06_route_is_consistent_triple.
 
 (* 5. Isolation, for every history of opens (with any configuration, plain or classic service), closes and requests:
       a connection's configuration -- hence its decision function -- is what it was given at open plus its own on_connect;
-      DEFAULT_CONFIG is never changed; no later operation on any connection changes it. *)
+      DEFAULT_CONFIG is never changed; no later operation on any connection changes it.
+      Fgen carries three generated facts: __init__ copies the defaults, on_connect writes the connection it was given, and
+      every write to any configuration dict found by the whole-tree scan of rpyc/ sits in Connection.__init__ or
+      SlaveService.on_connect (so serving a request or closing writes none).  The third is what makes a request a no-op on
+      configurations in the model; without it the model lets a request overwrite everything (5' below). *)
 Theorem c06_isolation : forall d h i u s,
   nth_open h i = Some (u, s) -> cfg_of (run Fgen d h) i = Some (own_cfg d u s) /\ default_of (run Fgen d h) = d.
 Proof.
-  destruct tie_facts as [A B]. intros d h i u s H. split.
+  destruct tie_facts as (A & B & R). intros d h i u s H. split.
   - now apply isolation.
   - now apply default_of_run.
 Qed.
@@ -134,7 +171,7 @@ Print Assumptions c06_isolation.
 
 Theorem c06_isolation_frame : forall d h op j c,
   cfg_of (run Fgen d h) j = Some c -> cfg_of (step Fgen (run Fgen d h) op) j = Some c.
-Proof. destruct tie_facts as [A B]. intros. now apply isolation_frame. Qed.
+Proof. destruct tie_facts as (A & B & R). intros. now apply isolation_frame. Qed.
 Print Assumptions c06_isolation_frame.
 
 Theorem c06_isolation_decisions : forall d h i u s perm p o,
@@ -154,6 +191,11 @@ Theorem c06_isolation_refuted_when_on_connect_foreign : forall F, f_on_connect_o
 Proof. exact isolation_refuted_foreign_on_connect. Qed.
 Print Assumptions c06_isolation_refuted_when_on_connect_foreign.
 
+Theorem c06_isolation_refuted_when_requests_write_config : forall F, f_requests_leave_config F = false ->
+  exists h i u s, nth_open h i = Some (u, s) /\ cfg_of (run F d1 h) i <> Some (own_cfg d1 u s).
+Proof. exact isolation_refuted_request_writes. Qed.
+Print Assumptions c06_isolation_refuted_when_requests_write_config.
+
 (* 6. Tie to the generated facts of the current source tree. *)
 Theorem c06_tie :
   (forall s perm pne n o, Gen_attrpolicy.check_attr s perm pne n o = Attr.check_attr s perm pne n o) /\
@@ -165,11 +207,14 @@ Theorem c06_tie :
   Gen_attrpolicy.init_copies_defaults = true /\ Gen_attrpolicy.init_updates_own = true /\
   Gen_attrpolicy.on_connect_updates_own = true /\
   List.length Gen_attrpolicy.config_writes = 4%nat /\ List.length Gen_attrpolicy.default_config_refs = 2%nat /\
-  List.length Gen_attrpolicy.safe_attrs_uses = 2%nat /\ List.length Gen_attrpolicy.restricted_hooks = 2%nat.
+  List.length Gen_attrpolicy.safe_attrs_uses = 2%nat /\ List.length Gen_attrpolicy.restricted_hooks = 2%nat /\
+  writes_at_open_only Gen_attrpolicy.config_writes = true /\
+  Gen_attrpolicy.service_defines_get_hook = false /\ List.length Gen_attrpolicy.hook_definitions = 4%nat.
 Proof.
   pose proof tie_config_writes as W. pose proof tie_default_config_refs as R. pose proof tie_safe_attrs_uses as S.
   pose proof tie_restricted as (H & _ & _). pose proof tie_dispatch_covered. pose proof tie_default_config.
-  repeat split; try exact tie_check_attr; try exact tie_check_probes; try exact tie_access_attr; try exact tie_routes_ok;
+  pose proof tie_hook_definitions as HD. pose proof tie_service_hooks as (_ & _ & _ & SG).
+  repeat split; try exact SG; try (now rewrite HD); try exact tie_check_attr; try exact tie_check_probes; try exact tie_access_attr; try exact tie_routes_ok;
     try (now rewrite W); try (now rewrite R); try (now rewrite S); now rewrite H.
 Qed.
 Print Assumptions c06_tie.
@@ -231,6 +276,14 @@ Example c06_hook_and_restricted :
   handle_restricted false cfg_default PSet (NStr (T "read")) r = (Raise AttributeError, [], ob ["read"; "write"; "close"]).
 Proof. vm_compute. repeat split. Qed.
 
+Example c06_service_root_sample :
+  let blanket := own_cfg cfg_default [] SvcClassic in
+  allow_all (sw blanket) = true /\ allow_setattr (sw blanket) = true /\ is_text (NStr (T "pub")) /\
+  handle_service true true false blanket PSet (NStr (T "pub")) [T "pub"] = (Raise AttributeError, [], svc_obj [T "pub"]) /\
+  fst (fst (handle_service true true false blanket PGet (NStr (T "pub")) [T "pub"])) = Ok tt /\
+  fst (fst (handle_service true true false cfg_default PGet (NStr (T "pub")) [T "pub"])) = Raise AttributeError.
+Proof. vm_compute. repeat split. auto. Qed.
+
 Example c06_routes_nonempty :
   In ("callattr", [RHandler "getattr"; RHandler "call"])%string Gen_attrpolicy.handlers /\
   handler_perms Gen_attrpolicy.handlers "oldslicing" = [Some PGet; Some PGet] /\
@@ -243,6 +296,11 @@ Proof. vm_compute. repeat split. auto 20. Qed.
 Definition hist : list hop :=
   [HOpen [SetSw KGetattr false] SvcPlain; HAccess 0; HOpen [SetSw KPublic true] SvcClassic; HOpen [SetSw KAll true; SetPrefix (T "x_")] SvcPlain;
    HClose 1; HAccess 2; HOpen [] SvcPlain].
+Example c06_isolation_hypotheses_met :
+  f_init_copies Fgen = true /\ f_on_connect_own Fgen = true /\ f_requests_leave_config Fgen = true /\
+  writes_at_open_only [("rpyc/core/protocol.py:Connection._handle_getattr", "setitem:'allow_all_attrs'")]%string = false.
+Proof. vm_compute. repeat split. Qed.
+
 Example c06_isolation_sample :
   nth_open hist 0 = Some ([SetSw KGetattr false], SvcPlain) /\ nth_open hist 3 = Some ([], SvcPlain) /\
   cfg_of (run Fgen cfg_default hist) 3 = Some cfg_default /\
